@@ -275,7 +275,7 @@ def envs_for(texts, rng, limit=40):
     fulls = {"3.8.0", "3.10.4", "2.7.18"}
     for lit in lits:
         for part in lit.split(","):
-            part = part.strip().replace(".*", "")
+            part = re.sub(r"\.?post\d+$", "", part.strip().replace(".*", ""))
             if re.fullmatch(r"\d+(\.\d+){0,2}", part):
                 xs = [int(x) for x in part.split(".")] + [0, 0]
                 X, Y, Z = xs[0], xs[1], xs[2]
@@ -328,6 +328,35 @@ def g2_applies(texts, env) -> bool:
             if substring != listed:
                 return True
     return False
+
+
+def d4a_applies(texts) -> bool:
+    """D4a reaching markers: an exclusive upper bound that is a post-release (`python_full_version < "4.0.post1"`).
+    RangeSpecifier._simplified_form renders [A, B.postN) as `~=A` when B is the next series of A, and from_specifier /
+    the merge of two atoms then builds an atom that means [A, B) (known finding, call site range.py `~=` branch)"""
+    import re
+    for t in texts:
+        if re.search(r'(python_version|python_full_version|platform_release) < "[^"]*post[^"]*"', t):
+            return True
+        if re.search(r'"[^"]*post[^"]*" > (python_version|python_full_version|platform_release)', t):
+            return True
+    return False
+
+
+def known_family(texts, env):
+    """call-site family of a known finding this failure can be attributed to, or None"""
+    if env is not None and g2_applies(texts, env):
+        return "version-in-substring"
+    if d4a_applies(texts):
+        return "compat-render-postrelease-max"
+    return None
+
+
+# (lower atom, post-release upper atom, environment in which the merged atom differs from the operands)
+D4A_PAIRS = [('python_full_version >= "3.7"', 'python_full_version < "4.0.post1"', "4.0.0"),
+             ('python_full_version >= "3.7.5"', 'python_full_version < "3.8.post2"', "3.8.0"),
+             ('python_full_version >= "2.7"', '"3.0.post1" > python_full_version', "3.0.0"),
+             ('python_version >= "3.7"', 'python_version < "4.0.post1"', "4.0.0")]
 
 
 # ----------------------------------------------------------------------------- oracles on real objects
